@@ -43,7 +43,10 @@ def _job(a):
         try:
             with time_budget(60):
                 aux = crosscheck_shape(c, sh)
-        except Budget:
+        except (Budget, Exception) as ex:  # noqa
+            # the alarm may fire inside a z3 ctypes call, where it surfaces as ctypes.ArgumentError("... Budget ...")
+            if not isinstance(ex, Budget) and "Budget" not in str(ex):
+                raise
             aux = dict(contract=c.name, shape=c.shape_str(sh), agree=None, detail="native run exceeded 60 s: skipped")
         return [dict(name="cross", status="x", strength="aux", backend="cpython", secs=0, aux=aux)]
     raise ValueError(kind)
